@@ -507,6 +507,13 @@ def family(tier):
                                                  F('match', 'Body', key='MsgType', pairs=[([1], 'Inner'), ([2], 'Logout')])], root=True),
                                 Packet('Inner', [F('basic', 'A', typ='u16'), F('checksum', 'Check', typ='u32', alg='CRC32', spelling='prefixed'), F('basic', 'After', typ='u8')]), logout],
         opts(LittleEndian='true'), fam='combined')
+    for le in ORDERS[:2]:
+        add('len_gap_obj_%s' % le, [Packet('Root', [F('lengthof', 'BodyLength', typ='u16', target='Body', spelling='inline'), F('basic', 'SeqNo', typ='u32'), F('dyn', 'Note', spelling='string'),
+                                                    F('obj', 'Body', typ='Logon'), F('basic', 'Tail', typ='u8')], root=True), logon], opts(LittleEndian=le), fam='lengthof',
+            note='ordinary fields between the length field and an object target')
+    add('len_gap_inline', [Packet('Root', [F('lengthof', 'BodyLength', typ='u32', target='Body', spelling='prefixed'), F('basic', 'SeqNo', typ='u64'),
+                                           F('inline', 'Body', fields=[F('dyn', 'S', spelling='string'), F('basic', 'V', typ='u16')]), F('basic', 'Tail', typ='u8')], root=True)],
+        opts(), fam='lengthof')
     add('len_inlineobj', [Packet('Root', [F('lengthof', 'BodyLength', typ='u16', target='Body', spelling='inline'),
                                            F('inline', 'Body', fields=[F('dyn', 'S', spelling='string'), F('basic', 'V', typ='u32', repeat=True)])], root=True)],
         opts(LittleEndian='true'), fam='lengthof')
@@ -534,6 +541,14 @@ def family(tier):
     add('disp_nonroot_before', [Packet('Root', [F('basic', 'Len', typ='u16'), F('obj', 'Env', typ='Envelope'), F('basic', 'Tail', typ='u32')], root=True), pa, pb,
                                 Packet('Envelope', [F('basic', 'T', typ='u8'), F('match', 'Inner', key='T', pairs=[([1], 'Alpha'), ([2], 'Beta')])])],
         opts(), fam='dispatch', note='a non-root packet holding a match is embedded by the root; its payload packets are declared before it')
+    add('disp_keyruns', [Packet('Root', [F('basic', 'Kind', typ='u8'), F('match', 'Payload', key='Kind',
+                                                                        pairs=[([1], 'Alpha'), ([10, 11, 20], 'Beta'), ([12], 'Gamma'), ([30, 31, 32, 40], 'Alpha'), ([33], 'Beta')])], root=True), pa, pb, pc],
+        opts(), fam='dispatch', note='key lists that are almost, but not quite, consecutive runs')
+    add('disp_strspecial', [Packet('Root', [F('dyn', 'Kind', spelling='string'),
+                                            F('match', 'Payload', key='Kind', pairs=[(['100%%', 'p%d'], 'Alpha'), (['%s', 'a{{b'], 'Beta'), ([' B', 'B '], 'Gamma')])], root=True), pa, pb, pc],
+        opts(), fam='dispatch', note='string keys with characters that are special in format strings / templates, and with blanks at the border')
+    add('disp_fixedkey', [Packet('Root', [F('fixed', 'Kind', n=2), F('match', 'Payload', key='Kind', pairs=[(['A'], 'Alpha'), ([' B', 'BB'], 'Beta')])], root=True), pa, pb],
+        opts(), fam='dispatch', note='fixed-width string key field', may_reject=True)
     add('disp_str', [Packet('Root', [F('dyn', 'Kind', spelling='string'),
                                      F('match', 'Payload', key='Kind', pairs=[(['AA'], 'Alpha'), (['BB', 'CC', 'D'], 'Beta')])], root=True), pa, pb],
         opts(), fam='dispatch')
@@ -576,6 +591,10 @@ def family(tier):
     add('cks_mid', [Packet('Root', [F('basic', 'A', typ='u32'), F('checksum', 'Check', typ='u32', alg='SUM8', spelling='inline'),
                                      F('basic', 'After', typ='u16')], root=True)], opts(LittleEndian='true'), fam='checksum',
         note='checksum field followed by another field')
+    add('cks_meta_samename', [Packet('Root', [F('basic', 'A', typ='u16'), F('checksum', 'Checksum', typ='u16', alg='CRC16', spelling='prefixed'), F('basic', 'B', typ='u8'),
+                                               F('checksum', 'Crc', typ='u16', alg='SUM16', spelling='inline')], root=True)],
+        opts(LittleEndian='true'), meta=[('Checksum', ('basic', 'u32'), 'a MetaData entry that happens to share the field name'), ('Crc', ('basic', 'u64'), 'same')], fam='checksum',
+        note='an explicitly typed checksum field keeps its declared width when a MetaData entry of the same name exists')
     add('cks_case', [Packet('Root', [F('basic', 'A', typ='u16'), F('checksum', 'Head', typ='u32', alg='crc32c', spelling='inline'),
                                       F('dyn', 'S', spelling='string'), F('checksum', 'Check', typ='u32', alg='Adler32', spelling='prefixed')], root=True)],
         opts(LittleEndian='true'), fam='checksum', note='algorithm names are case sensitive and used as written, in both spellings')
@@ -585,6 +604,15 @@ def family(tier):
     add('cks_two_widths', [Packet('Root', [F('checksum', 'Head', typ='u16', alg='SUM16', spelling='inline'), F('basic', 'A', typ='u16'),
                                             F('checksum', 'Check', typ='u32', alg='CRC32', spelling='inline')], root=True)],
         opts(), fam='checksum')
+    add('docs_special', [Packet('Root', [F('basic', 'A', typ='u16', doc='two\nlines of "doc" with 50% and {{braces}} and a \\ backslash'),
+                                         F('lengthof', 'Len', typ='u16', target='Body', spelling='inline', doc='100% of Body, max 50%d'),
+                                         F('obj', 'Body', typ='DocBody', doc="it's */ a -- doc #1"),
+                                         F('checksum', 'Check', typ='u32', alg='CRC32', spelling='inline', doc='sum %s\nsecond line')], root=True),
+                         Packet('DocBody', [F('dyn', 'S', spelling='string', doc='"""triple""" quotes'), F('fixed', 'Z', n=3, doc='tab\there')])],
+        opts(), fam='combined', note='doc strings with newlines, quotes, percent signs, braces and comment terminators of the target languages')
+    add('objs_empty', [Packet('Root', [F('basic', 'A', typ='u8'), F('obj', 'Mark', typ='Marker'), F('basic', 'B', typ='u16'), F('obj', 'Pads', typ='Marker', repeat=True),
+                                       F('basic', 'C', typ='u8')], root=True), Packet('Marker', [])], opts(),
+        note='a packet without fields used as an object field and as a list element')
     # identifier shapes
     add('idents', [Packet('Root', [F('basic', 'MsgType2', typ='u8'), F('dyn', 'clOrdID', spelling='string'), F('basic', 'user_name', typ='u16'),
                                    F('basic', 'ID', typ='u32'), F('obj', 'leg', typ='OrderLeg')], root=True),
